@@ -28,6 +28,7 @@ type rangeSite struct {
 	fn     string
 	mapVar string
 	sorted bool // the loop only collects keys/values into a slice that is sorted before use
+	sortForm string // how that slice is sorted: the sort function, plus the comparator source for sort.Slice-style calls
 	insert bool // the loop only inserts into another map / a set (order-insensitive)
 }
 
@@ -93,11 +94,17 @@ func extractMapRanges() (string, error) {
 					continue
 				}
 				sortedSlices := map[string]bool{}
+				sortForms := map[string]string{}
 				ast.Inspect(fd.Body, func(n ast.Node) bool {
 					if c, ok := n.(*ast.CallExpr); ok {
 						fn := exprString(c.Fun)
 						if (strings.HasPrefix(fn, "sort.") || strings.HasPrefix(fn, "slices.Sort")) && len(c.Args) > 0 {
 							sortedSlices[lastName(c.Args[0])] = true
+							form := fn
+							if len(c.Args) > 1 {
+								form += ":" + strings.Join(strings.Fields(exprString(c.Args[1])), " ")
+							}
+							sortForms[lastName(c.Args[0])] = form
 						}
 					}
 					return true
@@ -122,6 +129,7 @@ func extractMapRanges() (string, error) {
 						}
 						if c, ok := as.Rhs[0].(*ast.CallExpr); ok && exprString(c.Fun) == "append" && sortedSlices[lastName(as.Lhs[0])] {
 							onlyInsert = false
+							site.sortForm = sortForms[lastName(as.Lhs[0])]
 							continue
 						}
 						onlyAppendSorted = false
@@ -141,14 +149,14 @@ func extractMapRanges() (string, error) {
 	sort.Slice(sites, func(a, b int) bool { return sites[a].fn+sites[a].mapVar < sites[b].fn+sites[b].mapVar })
 	var b strings.Builder
 	b.WriteString(header("MapRanges", "internal/*, cmd/* (every `range` over a map-typed variable in generator code)"))
-	b.WriteString("/-- (function, map variable, keys collected into a slice that is sorted before use, body only inserts into a map). -/\n")
-	b.WriteString("def sites : List (String × String × Bool × Bool) := [\n")
+	b.WriteString("/-- (function, map variable, keys collected into a slice that is sorted before use, body only inserts into a map, how the slice is sorted). -/\n")
+	b.WriteString("def sites : List (String × String × Bool × Bool × String) := [\n")
 	for i, s := range sites {
 		sep := ","
 		if i == len(sites)-1 {
 			sep = ""
 		}
-		fmt.Fprintf(&b, "  (%s, %s, %v, %v)%s\n", leanStr(s.fn), leanStr(s.mapVar), s.sorted, s.insert, sep)
+		fmt.Fprintf(&b, "  (%s, %s, %v, %v, %s)%s\n", leanStr(s.fn), leanStr(s.mapVar), s.sorted, s.insert, leanStr(s.sortForm), sep)
 	}
 	b.WriteString("]\nend Sebuf.Gen.MapRanges\n")
 	return b.String(), nil
